@@ -198,6 +198,7 @@ type C03JRef struct {
 	Title  string `gorm:"column:Label"`
 	Label  string `gorm:"column:Title"`
 	Level  int    `gorm:"column:the_level"`
+	Tags   CSelfList
 	DeepID *uint
 	Deep   *C03JDeep
 }
